@@ -5,7 +5,7 @@ CONSTANTS
   OffsMod = 65536
   Kind = "uriparams"
   Atoms <- AtomsNames2
-  MaxLen = 12
+  MaxLen = 10
   Cfgs <- CfgsOf
   Starts = {0, 3}
   FlagSet = {64}
